@@ -181,13 +181,16 @@ ImplBatch(c, s, pts, tmx) ==
 (* Ref: the documented machine as a judge of an observed output.             *)
 (*   lvl      current level of the ID                                        *)
 (*   win      the last H levels (recorded history, initially all OK)         *)
-(*   left     age of the time the ID last left OK                            *)
+(*   left     SET of possible ages of the time the ID last left OK: one      *)
+(*            element, except after a batch whose event was suppressed       *)
+(*            (flapping) - then every admissible event time of that batch    *)
+(*            is a candidate until an observed duration narrows it down      *)
 (*   lastOld/lastNew  oldest / newest possible age of "the last alert" (they *)
 (*            differ only after a withheld recovery that flapping may or     *)
 (*            may not have suppressed)                                       *)
 (***************************************************************************)
 RefInit(c) ==
-    [lvl |-> 0, win |-> [i \in 1..c.H |-> 0], left |-> NoTime, lastOld |-> NoTime, lastNew |-> NoTime]
+    [lvl |-> 0, win |-> [i \in 1..c.H |-> 0], left |-> {NoTime}, lastOld |-> NoTime, lastNew |-> NoTime]
 
 RefJudge(c, r, pts, tmx, obs) ==
     LET plv      == [i \in DOMAIN pts |-> DocLevel(c, r.lvl, pts[i])]
@@ -212,14 +215,20 @@ RefJudge(c, r, pts, tmx, obs) ==
         \* event time used when nothing was observed: the code's choice
         defOff   == IF useAll \/ lv = 0 THEN tmx ELSE SetMin(trigOffs)
         e        == IF obs = None THEN defOff ELSE tmx - obs[2]
-        leftAtE  == IF leaving THEN 0 ELSE Adv(r.left, e)
-        expDur   == IF leftAtE = NoTime THEN SatDur ELSE leftAtE
+        DurOf(a) == IF a = NoTime THEN SatDur ELSE a
+        expDurs  == IF leaving THEN {0} ELSE { DurOf(Adv(a, e)) : a \in r.left }
         emitOK   == IF obs = None THEN \E x \in cands : ~mustEmit(x) ELSE mayEmit(e)
         levelOK  == obs # None => obs[1] = lv
-        carryOK  == obs # None => (e \in cands /\ obs[3] = expDur)
+        carryOK  == obs # None => (e \in cands /\ obs[3] \in expDurs)
         maybeTrig == obs = None /\ withheld /\ changed
+        left2    == IF leaving
+                    THEN IF obs # None THEN { CapAge(tmx - e) } ELSE { CapAge(tmx - x) : x \in cands }
+                    ELSE LET keep == IF obs # None /\ obs[3] \in expDurs
+                                     THEN { a \in r.left : DurOf(Adv(a, e)) = obs[3] }
+                                     ELSE r.left
+                         IN  { Adv(a, tmx) : a \in keep }
     IN  [st  |-> [lvl |-> lv, win |-> win2,
-                  left    |-> Adv(leftAtE, tmx - e),
+                  left    |-> left2,
                   lastOld |-> IF obs # None THEN CapAge(tmx - e) ELSE Adv(r.lastOld, tmx),
                   lastNew |-> IF obs # None THEN CapAge(tmx - e)
                               ELSE IF maybeTrig THEN 0 ELSE Adv(r.lastNew, tmx)],
@@ -294,7 +303,8 @@ EmitIff == chk.emit
 EventCarries == chk.carries
 (* Impl => Ref for non-flapping configurations: Ref allows exactly one       *)
 (* output there and Impl produces it.                                        *)
-ImplRefinesRef == ~cfg.flap => (chk.det /\ chk.level /\ chk.emit /\ chk.carries /\ ImplLevel(im) = rf.lvl)
+ImplRefinesRef ==
+    ~cfg.flap => (chk.det /\ chk.level /\ chk.emit /\ chk.carries /\ ImplLevel(im) = rf.lvl /\ Cardinality(rf.left) = 1)
 
 (* Weaker forms used where a deviation is under triage.                      *)
 EventCarriesNoFlap == ~cfg.flap => chk.carries
